@@ -1,8 +1,8 @@
 package formats
 
-// Demonstration for the defect repaired by "fix: the JSON output reports a failing write": JSONFormatter.Write
-// discarded the error of the underlying writer, so `octosql ... -o json > /dev/full` (or a closed pipe) exited 0 with
-// truncated output.
+// Demonstration for the defect repaired by "fix: the JSON output returns a failing write to the query":
+// JSONFormatter.Write discarded the error of the underlying writer, so the query kept running after stdout had failed
+// (end to end a finite query still failed at the final flush of the buffered stdout; an unbounded one never did).
 // Run: cd /repo && go test -vet=off -overlay <(echo '{"Replace":{"/repo/outputs/formats/zz_c06_demo_test.go":"/verif/findings/c06_json_write_error_test.go"}}') ./outputs/formats -run TestC06JSONWriteError
 
 import (
